@@ -464,7 +464,7 @@ class Folder:
                         raise Raised(type(ex).__name__, e)  # what the evaluated program would see
                     except LookupError as ex:
                         raise Unfoldable("%s: %s" % (unparse(e), ex))
-        if e.keywords and name not in ("int", "itertools.product", "sorted", "max", "min") and not (isinstance(e.func, ast.Name) and isinstance(self.env.get(e.func.id), Abstract)):
+        if e.keywords and name not in ("int", "itertools.product", "sorted", "max", "min") and not (isinstance(e.func, ast.Name) and isinstance(self.env.get(e.func.id), Abstract)) and not (isinstance(e.func, ast.Attribute) and dotted(e.func) and dotted(e.func).split(".")[0] in self.env):
             raise Unfoldable(unparse(e))
         if isinstance(e.func, ast.Attribute) and e.func.attr == "bit_length" and not args:
             v = self.fold(e.func.value)
@@ -660,6 +660,8 @@ class Folder:
             return fv.call(self, [self.fold(a) for a in args])
         if fv is Fraction:
             return Fraction(*[self.fold(a) for a in args])
+        if type(fv).__name__ == "_BoundMethod":
+            return fv.call(self, [self.fold(a) for a in args], {k.arg: self.fold(k.value) for k in e.keywords if k.arg})
         if isinstance(fv, Abstract) and callable(fv):
             return fv(*[self.fold(a) for a in args], **{k.arg: self.fold(k.value) for k in e.keywords if k.arg})
         if self.repo is not None and self.mod is not None and isinstance(e.func, (ast.Name, ast.Attribute)):
